@@ -35,6 +35,8 @@ def edit_kind(desc):
         return "drop_include"
     if desc.startswith("header inline"):
         return "inline_hdr"
+    if desc.startswith("inner header"):
+        return "inner_header"
     if desc.startswith("header"):
         return "header"
     if desc.startswith("swap"):
